@@ -49,7 +49,10 @@ def params_spec(draw, d, tier="quick", n_min=1, n_max=None, min_dkmax=1, eps=Non
     return {"N": N, "K": K, "tau": tau,
             "dt": draw(st.sampled_from(gens.DTS)),
             "eps": draw(st.sampled_from(eps or gens.EPSRELS)),
-            "tcut_spelling": draw(st.booleans())}
+            "tcut_spelling": draw(st.booleans()),
+            # tcut need not be a multiple of dt: the documented memory length is round(tcut/dt) (fractions of +-0.3 steps
+            # are unambiguous)
+            "tcut_frac": draw(st.sampled_from([0.0, 0.0, -0.3, 0.3]))}
 
 
 def coupling_operator(bspec, d):
@@ -89,11 +92,15 @@ def build_params(pspec, **kw):
     tau = gens.tau_value(pspec["tau"], dt)
     args = dict(dt=dt, epsrel=pspec["eps"], add_correlation_time=tau)
     if K is not None and pspec.get("tcut_spelling"):
-        args["tcut"] = K * dt          # documented alternative spelling of dkmax
+        args["tcut"] = (K + (pspec.get("tcut_frac", 0.0) if K >= 1 else 0.0)) * dt          # documented alternative spelling of dkmax
     else:
         args["dkmax"] = K
     args.update(kw)
-    return oqupy.TempoParameters(**args)
+    par = oqupy.TempoParameters(**args)
+    if K is not None and par.dkmax != K:
+        from vlib.runner import HarnessError
+        raise HarnessError(f"tcut={args.get('tcut')!r} with dt={dt!r} parsed as dkmax={par.dkmax}, generator intended {K}")
+    return par
 
 
 def end_time(pspec, start=0.0):
